@@ -35,7 +35,7 @@ import vlib
 from vlib import cq_list
 
 PROP_FILES = ["Properties/C13.v"]
-HARNESS = ["engine"]          # non-race fallback binary; the race binary is built in run()
+HARNESS = ["engine", "storage"]   # engine: non-race fallback binary (the race binary is built in run()); storage: c13body
 ASSUMPTIONS = [
     "PARTIAL: the theorem is about the lock protocol extracted from the source running on a model of "
     "sync.RWMutex; the Go memory model, the runtime and the compiled code are not modelled",
@@ -302,6 +302,14 @@ def run(ctx):
         if not r["exit_ok"] and not r["races"]:
             raise RuntimeError("race driver failed: " + r["log"])
 
+    # ---- 2b. statement bodies never write the data file (timer off, file compared around every body) ----
+    body_cfg = {"tables": 9 if ctx.tier == "quick" else 16, "rows": 24 if ctx.tier == "quick" else 120}
+    okb2, bouts, blg = vlib.run_driver(ctx.bins["storage"], "c13body", [body_cfg])
+    if not okb2 or len(bouts) != 1 or bouts[0].get("err"):
+        raise RuntimeError("c13body driver failed: " + (blg[-1500:] if not bouts else str(bouts[0].get("err"))))
+    body_steps = bouts[0]["steps"]
+    body_writes = [s for s in body_steps if s["changed"]]
+
     # ---- 3. correspondence: observed call sequences are paths of the extracted protocols --------
     traced = [s for r in results for s in r["steps"]
               if s["phase"] in ("traced", "parked") and s["kind"] in KIND_PROTO and not s.get("panic")
@@ -337,6 +345,13 @@ def run(ctx):
                     "and the completion of its log append)" % (obs["kind"].upper(), obs["park"]["point"]),
             "expected": "no mtime/size/content change of data/<db>/tbl during the %d ms park" % obs["park"]["ms"],
             "replay_cmd": "python3 tools/check.py C13 --replay <this file>"})
+    for s in body_writes[:1]:
+        out["spec_violations"].append({
+            "case": {"c13body": body_cfg}, "observed": s,
+            "what": "the data file was written inside the shared-lock part of a statement (%s): only flushPages, under the "
+                    "exclusive lock, may write it" % s["what"],
+            "expected": "data file unchanged (size and SHA-256) across createTable / Insert / Update / MarkDeleted / FlushWALBatch",
+            "replay_cmd": "python3 tools/check.py C13"})
     sigs = {}
     for r, rc in inside:
         sigs.setdefault(race_signature(rc), (r, rc))
@@ -384,6 +399,8 @@ def run(ctx):
         "parks": len(parks),
         "park_points": sorted(set("%s@%s" % p for p in parks)),
         "writes_seen_while_parked": len(s1),
+        "statement_bodies_compared_with_timer_off": len(body_steps),
+        "statement_bodies_that_wrote_the_data_file": len(body_writes),
         "ticker_alive_in_idle_windows": "%d of %d" % (alive, idle),
         "race_detector": "on (-race, GORACE halt_on_error=0)" if race_mode else "UNAVAILABLE (non-race fallback)",
         "race_reports_inside_property": len(inside),
